@@ -105,7 +105,7 @@ func (x *Exec) generate(fn *ssa.Function) {
 		if !x.countPath() {
 			return
 		}
-		if len(exitPCs) < 64 {
+		if len(exitPCs) < 3000 {
 			exitPCs = append(exitPCs, st2.PC())
 		}
 		if panicked {
